@@ -115,12 +115,18 @@ package gcrypto
 
 //@ define CInv(p) = forall i mathint :: {bsbits(p.bitset)[i]} bsbits(p.bitset)[i] ==> 0 <= i && i < len(p.keys) && Signed(p.keys[i], bytes(p.msg))
 
+// offeredOK: a sparse entry names one of the proof's keys by a two-byte index and its signature verifies under that key.
+//@ define offeredOK(p, e) = len(e.KeyID) == 2 && be16(bytes(e.KeyID)) < len(p.keys) && Vf(p.keys[be16(bytes(e.KeyID))], bytes(p.msg), bytes(e.Sig))
 //@ func SimpleCommonMessageSignatureProof.MergeSparse
 //@   property C13 C05 C01 C09
 //@   option implements CommonMessageSignatureProof.MergeSparse
 //@   requires SInv(p) && SCoupling(self, p)
 //@   represents pbits(self) == bsbits(p.bitset)
 //@   ensures sinv-kept: SInv(p)
+//@   ensures[C13] all-valid-means-every-offered-signature-verifies: result.AllValidSignatures ==>
+//@       (forall i int :: {addr(s.Signatures[i])} 0 <= i && i < len(s.Signatures) ==> offeredOK(p, s.Signatures[i]))
+//@   loop[C13] 1 invariant offered-so-far-verified: res.AllValidSignatures ==>
+//@       (forall i int :: {addr(s.Signatures[i])} 0 <= i && i <= rangeindex ==> offeredOK(p, s.Signatures[i]))
 //@   modifies p.sigs[*], bsbits(p.bitset)
 //@   loop 1 invariant sinv: SInv(p)
 //@   loop 1 invariant cinv: CInv(p)
